@@ -121,6 +121,93 @@ def random_history(rng):
     return out
 
 
+async def listen_phase(impl, app, calls):
+    """GET /listen with its REAL body: a listener of each level (default timeout and ?timeout=5/45) waits; an admin-level
+    event is triggered through the real API (PATCH /device by the admin -> device-update) and a view-only one
+    (full-update, the event the hub broadcasts after a restore); one tick of the session loop (core.sessions.update(), what
+    the main loop does) answers the listeners.  -> [{level, user, timeout, triggered, delivered, status}]"""
+    from qtoggleserver.core import events as core_events
+    from qtoggleserver.core import sessions as core_sessions
+    from qtoggleserver.core.api import auth as core_api_auth
+    from qtoggleserver.core.device import attrs as core_device_attrs
+    from tornado.httpclient import AsyncHTTPClient, HTTPRequest
+    from tornado.httpserver import HTTPServer
+    from tornado.netutil import bind_sockets
+
+    name = 'qtoggleserver.core.api.funcs.various.get_listen'
+    w = impl['wrappers_by_name'].get(name)
+    if w is None:
+        return {'error': 'get_listen is not an api_call wrapper any more'}
+    orig = impl['originals'][name]
+
+    async def recorded(request, *a, **kw):
+        calls.setdefault(request.headers.get('X-Case'), []).append((name, request.access_level))
+        return await orig(request, *a, **kw)
+    stub = w.__closure__[1].cell_contents
+    w.__closure__[1].cell_contents = recorded
+    if core_sessions._sessions_event_handler is None:
+        await core_sessions.init()      # registers the sessions' event handler, as startup does
+
+    hashes = {u: sha(pwtext(1)) for u in USERS}
+    for u in USERS:
+        setattr(core_device_attrs, u + '_password_hash', hashes[u])
+    tok = {u: core_api_auth.make_auth_header(core_api_auth.ORIGIN_CONSUMER, u, hashes[u]) for u in USERS}
+
+    socks = bind_sockets(0, '127.0.0.1')
+    port = socks[0].getsockname()[1]
+    srv = HTTPServer(app)
+    srv.add_sockets(socks)
+    client = AsyncHTTPClient(force_instance=True, max_clients=8)
+    out = []
+    try:
+        k = 0
+        for user in ('viewonly', 'normal', 'admin'):
+            for timeout in (None, 5, 45):
+                k += 1
+                sid = 'c09listen%d' % k
+                url = 'http://127.0.0.1:%d/api/listen%s' % (port, '' if timeout is None else '?timeout=%d' % timeout)
+                task = asyncio.ensure_future(client.fetch(
+                    HTTPRequest(url, method='GET', headers={'Authorization': tok[user], 'Session-Id': sid, 'X-Case': sid},
+                                request_timeout=20), raise_error=False))
+                for _ in range(200):     # until the session is listening
+                    sess = core_sessions._sessions_by_id.get(sid)
+                    if task.done() or (sess is not None and sess.future is not None):
+                        break
+                    await asyncio.sleep(0.005)
+                triggered = []
+                if not task.done():
+                    r = await client.fetch(HTTPRequest(
+                        'http://127.0.0.1:%d/api/device' % port, method='PATCH', body=json.dumps({'display_name': 'c09-l%d' % k}),
+                        headers={'Authorization': tok['admin'], 'Content-Type': 'application/json', 'X-Case': sid + 'p'}),
+                        raise_error=False)
+                    if r.code == 204:
+                        triggered.append('device-update')
+                    await core_events.trigger_full_update()
+                    triggered.append('full-update')
+                    core_sessions.update()      # one tick of the hub's loop: listeners with queued events are answered
+                    try:
+                        await asyncio.wait_for(asyncio.shield(task), 0.5)
+                    except asyncio.TimeoutError:
+                        sess = core_sessions._sessions_by_id.get(sid)
+                        if sess is not None:
+                            sess.respond()      # keep-alive: the listener gets whatever is queued for it (nothing)
+                resp = await task
+                delivered = None
+                if resp.code == 200:
+                    try:
+                        delivered = [e.get('type') for e in json.loads(resp.body)]
+                    except Exception:
+                        delivered = None
+                out.append({'user': user, 'level': LEVEL[user], 'timeout': timeout, 'triggered': triggered,
+                            'delivered': delivered, 'status': resp.code})
+    finally:
+        client.close()
+        srv.stop()
+        await srv.close_all_connections()
+        w.__closure__[1].cell_contents = stub
+    return {'cases': out}
+
+
 async def main(out_path, seed, n_random):
     from qtoggleserver.conf import settings
     settings.persist.driver = 'qtoggleserver.drivers.persist.JSONDriver'
@@ -247,8 +334,9 @@ async def main(out_path, seed, n_random):
         for m, o in zip(metas, outs):
             m['observed'] = list(o)
         out.append({'steps': steps, 'probes': metas})
+    listen = await listen_phase(impl, app, calls)
     with open(out_path, 'w') as f:
-        json.dump({'flags_on': flags_on, 'histories': out, 'tie_failures': [str(t)[:300] for t in res['tie_failures']]}, f)
+        json.dump({'flags_on': flags_on, 'histories': out, 'listen': listen, 'tie_failures': [str(t)[:300] for t in res['tie_failures']]}, f)
 
 
 if __name__ == '__main__':
